@@ -862,6 +862,22 @@ func C04(e *Env) {
 		}
 		bursts = append(bursts, hcase{Family: "burst", Name: "64 keyed images opened at once on a cold server #0", Streams: ss})
 	}
+	// image builds of trees whose names the process has never seen, all at once (anything memoised per
+	// name, per directory or per tree is filled concurrently here)
+	for round := 0; round < e.Pick(3, 12); round++ {
+		var ss [][]byte
+		for k := 0; k < 24; k++ {
+			d := filepath.Join(root, "fresh", fmt.Sprintf("r%02d_t%02d", round, k), "PS3_GAME", "USRDIR")
+			must(os.MkdirAll(d, 0o755))
+			for f := 0; f < 40; f++ {
+				must(os.WriteFile(filepath.Join(d, fmt.Sprintf("n%02d_%02d_%02d_%x.bin", round, k, f, rng.Int63())), tree.Content(int64(f), int64(1+f*37)), 0o644))
+			}
+			must(os.WriteFile(filepath.Join(root, "fresh", fmt.Sprintf("r%02d_t%02d", round, k), "PS3_GAME", "PARAM.SFO"), makeSFO(map[string]string{"TITLE_ID": fmt.Sprintf("BLES%05d", round*100+k)}, []string{"TITLE_ID"}), 0o644))
+			pre := []string{"/***DVD***", "/***PS3***"}[k%2]
+			ss = append(ss, append(wire.P(wire.OpOpen, fmt.Sprintf("%s/fresh/r%02d_t%02d", pre, round, k)).Bytes(), wire.Read(70000, 30000).Bytes()...))
+		}
+		bursts = append(bursts, hcase{Family: "burst", Name: fmt.Sprintf("24 images of never-seen trees built at once #%d", round), Streams: ss})
+	}
 	for i := 0; i < e.Pick(30, 300); i++ {
 		var ss [][]byte
 		for k := 0; k < 40+rng.Intn(80); k++ {
